@@ -74,6 +74,39 @@ type emitWalker struct {
 	typeIface *types.Interface
 	depth     int
 	inline    bool // follow helper functions of the generator's package
+	defs      map[types.Object]ast.Expr // local variables with exactly one definition (x := e) -> e
+}
+
+// localDef returns the defining expression of a local variable that is
+// defined exactly once (name := s.name()), nil otherwise.
+func (w *emitWalker) localDef(o types.Object) ast.Expr {
+	if w.defs == nil {
+		w.defs = map[types.Object]ast.Expr{}
+		count := map[types.Object]int{}
+		for _, f := range w.p.Syntax {
+			ast.Inspect(f, func(n ast.Node) bool {
+				as, ok := n.(*ast.AssignStmt)
+				if !ok || len(as.Lhs) != len(as.Rhs) {
+					return true
+				}
+				for i, l := range as.Lhs {
+					if id, ok := l.(*ast.Ident); ok {
+						if obj := w.info.ObjectOf(id); obj != nil {
+							count[obj]++
+							w.defs[obj] = as.Rhs[i]
+						}
+					}
+				}
+				return true
+			})
+		}
+		for o, n := range count {
+			if n != 1 {
+				delete(w.defs, o)
+			}
+		}
+	}
+	return w.defs[o]
 }
 
 // helperToks: the operations emitted by a helper function of the generator's
@@ -99,6 +132,16 @@ func (w *emitWalker) memberKey(e ast.Expr) string {
 		return w.memberKey(x.X) + "." + x.Sel.Name
 	case *ast.Ident:
 		if o := w.info.ObjectOf(x); o != nil {
+			if v, isVar := o.(*types.Var); isVar && !v.IsField() && w.depth < 6 {
+				if def := w.localDef(o); def != nil {
+					if b, ok := o.Type().Underlying().(*types.Basic); ok && b.Info()&types.IsString != 0 {
+						w.depth++
+						k := w.memberKey(def)
+						w.depth--
+						return k
+					}
+				}
+			}
 			t := o.Type()
 			if pt, ok := t.(*types.Pointer); ok {
 				t = pt.Elem()
